@@ -49,12 +49,14 @@ let lineage () =
   let n = next () in
   many n (fun () -> let k = nextz () in let nm = nextz () in let ver = nextz () in let cfg = kvs () in (k, ((nm, ver), cfg)))
 let toks l = join (List.map int_of_z l)
-let obs_str = function
-  | ObNone -> "N"
-  | ObBool b -> if b then "B 1" else "B 0"
-  | ObErr e -> "E " ^ string_of_int (int_of_z e)
-  | ObKey l -> "K " ^ toks (c02_key l)
-  | ObData (d, amb) -> "D " ^ (if amb then "1 " else "0 ") ^ toks (ser d)
+let obs_str l =
+  match List.map int_of_z l with
+  | [0] -> "N"
+  | [1; b] -> "B " ^ string_of_int b
+  | [2; e] -> "E " ^ string_of_int e
+  | 3 :: r -> "K " ^ join r
+  | 4 :: a :: r -> "D " ^ string_of_int a ^ " " ^ join r
+  | _ -> "?"
 let handle t =
   match t with
   | "hist" :: rest ->
@@ -62,7 +64,7 @@ let handle t =
       let fx = next () <> 0 in
       let n = next () in
       let ops = many n op in
-      let out = c02_run fx ops in
+      let out = c02_run_tokens fx ops in
       String.concat " | " (List.map (fun (ob, ch) -> obs_str ob ^ " ; " ^ toks ch) out)
   | "canon" :: rest -> cur := ints rest; let v = value () in toks (c02_canon v)
   | "pyeq" :: rest -> cur := ints rest; let a = value () in let b = value () in if py_eqb a b then "1" else "0"
